@@ -251,16 +251,18 @@ async fn forward_loop(
                 .await
             {
                 Ok(kvps) => {
-                    if quiet.unwrap_or(false) {
-                        stx.send(ServerMessage::PState(PState {
-                            transaction_id,
-                            request_pattern,
-                            event: PStateEvent::Deleted(kvps),
-                        }))
-                        .ok();
-                    } else {
-                        stx.send(ServerMessage::Ack(Ack { transaction_id })).ok();
-                    }
+                    // same answer as the server's protocol handler: always a PState, without the
+                    // deleted key/value pairs if the client asked for a quiet delete
+                    stx.send(ServerMessage::PState(PState {
+                        transaction_id,
+                        request_pattern,
+                        event: PStateEvent::Deleted(if quiet.unwrap_or(false) {
+                            vec![]
+                        } else {
+                            kvps
+                        }),
+                    }))
+                    .ok();
                 }
                 Result::Err(e) => handle_error(&stx, e, transaction_id).await,
             },
